@@ -483,7 +483,9 @@ impl Exec {
             }
             Op::CsFrom(ps) => {
                 let pairs = self.pairs(ps);
-                let new: ChangeSet<Amount> = pairs.into_iter().collect();
+                // the source is not always an exact-size iterator: a join or a generator gives the hint `(0, None)`
+                let k = flavour(&pairs);
+                let new: ChangeSet<Amount> = flavoured(pairs, k).collect();
                 self.cs = new;
                 "ok".into()
             }
@@ -496,7 +498,8 @@ impl Exec {
             },
             Op::CsExtend(ps) => {
                 let pairs = self.pairs(ps);
-                self.cs.extend(pairs);
+                let k = flavour(&pairs);
+                self.cs.extend(flavoured(pairs, k));
                 "ok".into()
             }
             Op::CsClear => {
@@ -818,6 +821,20 @@ fn flush(out: &mut String) {
     l.write_all(out.as_bytes()).unwrap();
     l.flush().unwrap();
     out.clear();
+}
+
+/// Which kind of iterator hands the pairs to `collect` / `extend` (a function of the pairs, so that replays agree).
+fn flavour(pairs: &[(Entity, Amount)]) -> usize {
+    (pairs.len() + pairs.first().map(|p| p.0.id() as usize).unwrap_or(0)) % 3
+}
+/// 0: the vector's own iterator (exact size hint); 1: a generator (`(0, None)`, what a join iterator reports);
+/// 2: a filtered iterator (`(0, Some(n))`).
+fn flavoured<T: 'static>(v: Vec<T>, k: usize) -> Box<dyn Iterator<Item = T>> {
+    match k {
+        0 => Box::new(v.into_iter()),
+        1 => { let mut it = v.into_iter(); Box::new(std::iter::from_fn(move || it.next())) }
+        _ => Box::new(v.into_iter().filter(|_| true)),
+    }
 }
 
 fn main() {
